@@ -5,13 +5,37 @@ import gen_bus
 RULE = ('python-random histories with SCM_RIGHTS: messages (broadcast, unicast signals, calls) carrying 0-3 or 17 fresh temp files, header '
         'count equal / smaller (surplus stays held) / larger (invalid) than what is attached, two messages and their descriptors in one '
         'sendmsg, recipients with and without negotiated descriptor passing, missing names, sender or recipient disconnecting mid-way; every '
-        'received descriptor is identified by (st_dev, st_ino) and must be the announced files in order; after each scenario all clients close '
+        'received descriptor is identified by (st_dev, st_ino) and must be the announced files in order; every sixth scenario sends descriptors with 120-450 kB headers (several writes per message); after each scenario all clients close '
         'and the /proc/<pid>/fd count of the daemon must return to its baseline; distinct = distinct scenario texts')
 W = {'req': 1.5, 'rel': 0.5, 'query': 0.2, 'addmatch': 1.2, 'rmmatch': 0.2, 'signal': 1, 'call': 1, 'reply': 1,
      'usignal': 0.5, 'close': 0.6, 'driver_other': 0.1, 'nodest': 0.1, 'fdsend': 7}
 
 
+def big_header(rng):
+    """descriptors attached to messages whose header is far larger than one write to the recipient takes (300 kB object
+    path): the descriptors must still arrive once, with the first byte only"""
+    rounds = []
+    for s in (1, 2, 3):
+        rounds.append({'ops': {str(s): [{'k': 'connect', 'uid': 0, 'fdcap': True}, {'k': 'hello'}] +
+                               ([{'k': 'req', 'n': 'com.example.A', 'f': 0}] if s == 2 else [])}})
+    ser = 5000
+    for _ in range(rng.choice([2, 3, 4])):
+        a = rng.choice([1, 3])
+        ops = []
+        for _j in range(rng.choice([1, 2])):
+            ser += 1
+            n = rng.choice([1, 2, 3])
+            ops.append({'k': 'send', 'ty': rng.choice([1, 4]), 'dst': rng.choice(['com.example.A', {'slot': 2}, {'slot': 4 - a}]),
+                        'path': '/' + 'p' * rng.choice([120000, 300000, 450000]), 'ifc': 'com.example.I', 'mem': 'Ma', 'sig': 'u',
+                        'body': [ser], 'ser': ser, 'fl': 1, 'fds': n})
+        rounds.append({'ops': {str(a): ops}})
+    rounds.append({'ops': {'2': [{'k': 'query', 'q': 'list'}]}})
+    return {'cfg': {}, 'rounds': rounds}
+
+
 def gen(rng, i):
+    if i % 6 == 4:
+        return big_header(rng)
     g = gen_bus.Gen(rng, nslots=4, nnames=2, w=W, odd_rules=0.0)
     g.fdcap = 0.75
     scn = g.scenario(nrounds=rng.choice([10, 14]), concurrency=0.3, burst=0.3)
